@@ -403,11 +403,22 @@ def search(prop, family, meta, tier, seed, workers, budget, binary, scratch, t0,
             continue
         small = res["case"]
         json.dump(small, open(case_path, "w"))
-        res2, err2 = one_shot(binary, family, "replay", case_path, scratch)
+        # The code under test contains Go selects with several ready cases
+        # (e.g. handlerLoop: parent context done vs. next handler call), which
+        # the runtime resolves at random: a replay may need a few attempts to
+        # take the same branch. It counts as reproduced only when the class and
+        # the event-log hash are identical.
+        rep = None
+        for attempt in range(8):
+            res2, err2 = one_shot(binary, family, "replay", case_path, scratch)
+            if res2 is None:
+                break
+            rep = res2["case"]
+            if rep["class"] == cls and rep["event_log_hash"] == small["event_log_hash"]:
+                break
         if res2 is None:
             harness.append("replay of %s crashed: %s" % (cls, (err2 or "")[-2000:]))
             continue
-        rep = res2["case"]
         if rep["class"] != cls or rep["event_log_hash"] != small["event_log_hash"]:
             keep = os.path.join(replay_dir, "NONREPLAY-%s-%s.json" % (prop, sanitize(cls)))
             json.dump({"first": small, "second": rep}, open(keep, "w"), indent=1)
@@ -515,13 +526,16 @@ def replay(args):
         env = {"VERIF_PROP": family, "VERIF_MODE": "replay", "VERIF_CASE": os.path.abspath(args.file),
                "VERIF_OUT": out}
         env.update(extra)
-        p = run_worker(binary, env, capture=False)
-        p.wait()
-        if p.returncode != 0 or not os.path.exists(out):
-            log("replay worker failed")
-            return 2
-        r = json.load(open(out))["case"]
-        same = r["class"] == c["class"] and r["event_log_hash"] == c["event_log_hash"]
+        for attempt in range(8):
+            p = run_worker(binary, env, capture=not args.verbose or attempt > 0)
+            p.communicate()
+            if p.returncode not in (0, 1) or not os.path.exists(out):
+                log("replay worker failed")
+                return 2
+            r = json.load(open(out))["case"]
+            same = r["class"] == c["class"] and r["event_log_hash"] == c["event_log_hash"]
+            if same:
+                break
         print("replayed: class=%r hash=%s (recorded: class=%r hash=%s) identical=%s" % (
             r["class"], r["event_log_hash"], c["class"], c["event_log_hash"], same))
         if args.verbose:
